@@ -2460,6 +2460,11 @@ bool mmd_engine_has_metadata(mmd_engine * e, size_t * end) {
 		// Already parsed
 		doc = old_root;
 	} else {
+		// Metadata found by an earlier check would be pushed a second time
+		while (e->metadata_stack->size) {
+			meta_free(stack_pop(e->metadata_stack));
+		}
+
 		// Store stack sizes
 		temp = mmd_engine_create(NULL, 0);
 
